@@ -109,7 +109,26 @@ def _decode(ctx, lines, via_chart, rc, sections=()):
     """Returns the observed metadata dict, 'MISSING' for MissingRequiredField, or None after a
     reported violation."""
     try:
-        if via_chart:
+        if via_chart == "path":
+            # read by path from a folder that looks like a real song folder (audio, ini and image files next
+            # to the chart): [Song] decoding is a function of the [Song] lines only
+            import os
+            import tempfile
+            from pathlib import Path
+            from cpverif import core
+            text = "[Song]\n{\n" + "".join(ln + "\n" for ln in lines) + \
+                   "}\n[SyncTrack]\n{\n  0 = TS 4\n  0 = B 120000\n}\n[Events]\n{\n}\n"
+            with tempfile.TemporaryDirectory(dir=core.work_dir()) as d:
+                for name in ("song.ogg", "guitar.ogg", "rhythm.ogg", "drums.ogg", "song.ini", "album.png",
+                             "notes.mid", "crowd.ogg", "vocals.ogg", "keys.ogg", "bass.ogg", "preview.ogg"):
+                    with open(os.path.join(d, name), "wb") as f:
+                        f.write(b"x")
+                with open(os.path.join(d, "song.ini"), "w") as f:
+                    f.write("[song]\nname = Other\nartist = Other\ndelay = 99\ndiff_guitar = 5\n")
+                with open(os.path.join(d, "notes.chart"), "w", encoding="utf-8", newline="") as f:
+                    f.write(text)
+                md = L.Chart.from_filepath(Path(os.path.join(d, "notes.chart"))).metadata
+        elif via_chart:
             text = "[Song]\n{\n" + "".join(ln + "\n" for ln in lines) + \
                    "}\n[SyncTrack]\n{\n  0 = TS 4\n  0 = B 120000\n}\n[Events]\n{\n  0 = E \"section a\"\n}\n" + \
                    "".join(f"[{h}]\n{{\n  0 = N 0 0\n  96 = N 7 0\n  96 = E solo\n}}\n" for h in sections)
@@ -130,6 +149,8 @@ def check_body(ctx: Ctx, case) -> None:
     has_res = any(f[0] == "Resolution" for f in fields)
     res_val = next((int(f[1]) for f in fields if f[0] == "Resolution"), None)
     via_chart = bool(case.get("via_chart")) and has_res and 0 < res_val <= 10 ** 6
+    if via_chart and len(lines) % 2 == 0:
+        via_chart = "path"
     rc = {"lines": lines, "via_chart": via_chart, "sections": case.get("sections") or []}
     got = _decode(ctx, lines, via_chart, rc, case.get("sections") or ())
     if got is None:
